@@ -1,6 +1,6 @@
 """C06 — slab and fault geometry (structural necessary conditions only)."""
 from .. import facts, run
-from ..rules import dep, segments, pure
+from ..rules import dep, frame, segments, pure
 
 
 def main(tier):
@@ -12,6 +12,7 @@ def main(tier):
     segments.line_siblings(P, rep)
     segments.kernel_interpolation(P, rep)
     segments.nearest_segment_selection(P, rep)
+    rep.attempt(frame.straight_segment, P, rep)      # one straight segment of the slab frame equals the planar construction
     dep.culling(P, rep)      # membership iff the distances are in range: the shortcuts in front must not discard members
     dep.accumulators(P, rep)
     rep.assumptions.append("the line/arc construction itself (Utilities::distance_point_from_curved_planes, 650 lines of trigonometry over reals) "
